@@ -130,7 +130,7 @@ def run(ctx):
     with open(path, "w") as f:
         for e in events:
             f.write(json.dumps(e) + "\n")
-    r = ctx.tlc("CorpusTrace", TCFG % path, workers=1, label="c09_corpus", allow_violation=True, timeout=2400, jvm="-XX:ParallelGCThreads=2 -Xss64m")
+    r = ctx.tlc("CorpusTrace", TCFG % path, workers=1, label="c09_corpus", allow_violation=True, timeout=2400, jvm="-XX:ParallelGCThreads=2 -Xmx3g -Xss64m")
     accepted = len(events)
     if r["violated"] is not None:
         if r["violated"] != "POSTCONDITION":
